@@ -12522,13 +12522,12 @@ template <typename TN_, typename TA_, Strategy SG_, typename TH_, typename... TS
 HFSM2_CONSTEXPR(14)
 typename TA_::UP
 C_<TN_, TA_, SG_, TH_, TS_...>::deepReportChangeSelectable(Control& control) noexcept {
-	const Prong  resumable = compoResumable(control);
-		  Prong& requested = compoRequested(control);
-
-	requested = (resumable != INVALID_PRONG) ?
-		resumable : 0;
+	Prong& requested = compoRequested(control);
+	requested = HeadState::wrapSelect(control);
 
 	HFSM2_ASSERT(requested < WIDTH);
+
+	HFSM2_LOG_SELECT_RESOLUTION(control.context(), HEAD_ID, requested);
 
 	const UP h = HeadState::deepReportChange		  (control);
 	const UP s = SubStates::wideReportChangeSelectable(control, requested);
